@@ -189,7 +189,10 @@ Proof.
     { constructor; cbn [sh ths hist]; auto; try (rewrite (nlinked_upd _ _ _ _ Hi)); try (rewrite (sumw_upd _ _ _ _ Hi)); cbn [linked wlen]; try lia.
       - eapply Uniq_same; eauto; left; reflexivity.
       - other_threads HT; auto; try exact I. }
-    destruct (Nat.eqb_spec (head s) h0) as [E|E]; [|exact Hlocal]. symmetry in E. destruct (H2 E) as [Hlt ->]. subst h0.
+    assert (Hbusy : Inv {| sh := s; ths := upd l i Idle; hist := h ++ [(i, RPopBusy)] |}).
+    { destruct Hlocal as [A1 A2 A3 A4 A5 A6 A7 A8 A9 A10]. constructor; cbn [sh ths hist] in *; auto.
+      apply Forall_app; split; auto; repeat constructor. }
+    destruct (Nat.eqb_spec (head s) h0) as [E|E]; [|exact Hbusy]. symmetry in E. destruct (H2 E) as [Hlt ->]. subst h0.
     assert (Hq1 : (1 <= length (q s))%nat) by lia.
     destruct (q s) as [|g q'] eqn:Eq; [cbn [length] in Hq1; lia|]. cbn [nth List.tl].
     constructor; cbn [sh ths hist vals head tail len q lin push_hist]; auto;
@@ -229,6 +232,12 @@ Proof.
     + eapply Uniq_same; eauto; left; reflexivity.
     + other_threads HT; auto; try exact I.
     + apply Forall_app; split; auto; repeat constructor; exact Hp.
+  - (* LenLoad *)
+    constructor; cbn [sh ths hist push_hist]; auto; try (rewrite (nlinked_upd _ _ _ _ Hi)); try (rewrite (sumw_upd _ _ _ _ Hi)); cbn [linked wlen]; try lia.
+    + eapply Uniq_same; eauto; left; reflexivity.
+    + other_threads HT; auto; try exact I.
+    + apply Forall_app; split; auto; repeat constructor. unfold res_ok; cbn [snd].
+      all: pose proof (sumw_nonneg l); try rewrite Hcnt; try rewrite Hq; lia.
 Qed.
 
 Lemma init_inv n : Inv (init n).
